@@ -22,7 +22,13 @@ pub enum Op {
     Unsub(u8),
     /// a raw PUB/XPUB peer starts joining; `stall`: its connection accepts only the
     /// library's handshake plus this many bytes until released (None = never stalls)
-    Join { xpub: bool, stall: Option<usize> },
+    Join {
+        xpub: bool,
+        stall: Option<usize>,
+        /// the peer announces a fixed identity (so that it can come back under it)
+        #[serde(default)]
+        ident: bool,
+    },
     /// open the write window of joiner #j (index among joiners)
     Release(usize),
     /// one poll of a runnable actor
@@ -30,6 +36,10 @@ pub enum Op {
     Settle,
     /// peer #j's connection breaks (writes fail from now on)
     Break(usize),
+    /// peer #j (one that announced a fixed identity) dies silently - the SUB, which is not
+    /// reading, does not notice - and a new connection announcing the same identity joins. From
+    /// then on that peer is the new connection.
+    Rejoin(usize),
 }
 
 #[derive(Debug, Clone, Serialize, Deserialize, PartialEq, Eq, Hash)]
@@ -46,6 +56,8 @@ struct PeerRt {
     join_overlapped_call: bool,
     joined: bool,
     stalled: bool,
+    identity: Option<Vec<u8>>,
+    xpub: bool,
 }
 
 /// fold a peer's wire into per-topic counts the way a publisher does
@@ -78,19 +90,22 @@ pub fn sub_outcome(c: &SubCase) -> Outcome {
             let mut sim = Sim::new();
             let s = sim.socket(Kind::Sub, None);
             let mut peers: Vec<PeerRt> = vec![];
-            for _ in 0..c.initial_peers {
+            for i in 0..c.initial_peers {
                 let l = sim.link();
-                l.raw_handshake("PUB", None);
+                // every other early peer announces a fixed identity
+                let identity = if i % 2 == 0 { Some(format!("pub-{}", i).into_bytes()) } else { None };
+                l.raw_handshake("PUB", identity.as_deref());
                 let a = sim.attach(s, &l);
-                peers.push(PeerRt { link: l, attach: a, broken: false, join_overlapped_call: false, joined: false, stalled: false });
+                peers.push(PeerRt { link: l, attach: a, broken: false, join_overlapped_call: false, joined: false, stalled: false, identity, xpub: false });
             }
+            let mut replaced: Vec<Link> = vec![];
             if sim.settle().await.is_err() {
                 fail!(f, "C13/spin", "setup");
                 return (f, classes);
             }
             // API history: set semantics and whether set == counting semantics per topic
             let mut set: BTreeSet<u8> = BTreeSet::new();
-            let mut coincide = [true; 4];
+            let coincide = [true; 4];
             let mut call: Option<usize> = None;
             let mut any_sub_before_join = false;
             let mut repeated_topic = false;
@@ -142,7 +157,8 @@ pub fn sub_outcome(c: &SubCase) -> Outcome {
                         let on = matches!(op, Op::Sub(_));
                         if on {
                             if set.contains(&t) {
-                                coincide[t as usize] = false;
+                                // the socket keeps a SET (and announces set changes only), so a
+                                // repeated subscribe changes nothing and is not announced again
                                 repeated_topic = true;
                             }
                             set.insert(t);
@@ -159,12 +175,32 @@ pub fn sub_outcome(c: &SubCase) -> Outcome {
                         call = Some(a);
                         sim.poll(a);
                     }
-                    Op::Join { xpub, stall } => {
+                    Op::Rejoin(j) => {
+                        finish_call!();
+                        let cands: Vec<usize> = (0..peers.len()).filter(|j| peers[*j].identity.is_some() && peers[*j].joined && !peers[*j].stalled && !peers[*j].broken).collect();
+                        if cands.is_empty() {
+                            continue;
+                        }
+                        let j = cands[*j % cands.len()];
+                        // the old connection is dead, but nothing tells the socket
+                        peers[j].link.from_lib.break_writer(std::io::ErrorKind::ConnectionReset);
+                        let l = sim.link();
+                        l.raw_handshake(if peers[j].xpub { "XPUB" } else { "PUB" }, peers[j].identity.as_deref());
+                        let a = sim.attach(s, &l);
+                        let old = std::mem::replace(&mut peers[j].link, l);
+                        replaced.push(old);
+                        peers[j].attach = a;
+                        peers[j].joined = false;
+                        peers[j].join_overlapped_call = false;
+                        classes.push("peer-comes-back-under-its-identity".into());
+                    }
+                    Op::Join { xpub, stall, ident } => {
                         if peers.len() >= 6 {
                             continue;
                         }
                         let l = sim.link();
-                        l.raw_handshake(if *xpub { "XPUB" } else { "PUB" }, None);
+                        let identity = if *ident { Some(format!("pub-{}", peers.len()).into_bytes()) } else { None };
+                        l.raw_handshake(if *xpub { "XPUB" } else { "PUB" }, identity.as_deref());
                         let mut stalled = false;
                         if let Some(k) = stall {
                             l.from_lib.set_window(Window::Budget(SUB_HANDSHAKE_LEN + *k));
@@ -174,7 +210,7 @@ pub fn sub_outcome(c: &SubCase) -> Outcome {
                         if any_sub_before_join {
                             classes.push("join-after-subscribe".into());
                         }
-                        peers.push(PeerRt { link: l, attach: a, broken: false, join_overlapped_call: call.is_some(), joined: false, stalled });
+                        peers.push(PeerRt { link: l, attach: a, broken: false, join_overlapped_call: call.is_some(), joined: false, stalled, identity, xpub: *xpub });
                     }
                     Op::Release(j) => {
                         let js: Vec<usize> = (c.initial_peers..peers.len()).collect();
@@ -330,17 +366,19 @@ pub fn gen_sub(s: &mut Src<'_>) -> SubCase {
     let mut ops = vec![];
     let allow_break = s.chance(1, 4);
     for _ in 0..n {
-        let op = match s.weighted(&[6, 4, 3, 2, 4, 2, if allow_break { 1 } else { 0 }]) {
+        let op = match s.weighted(&[6, 4, 3, 2, 4, 2, if allow_break { 1 } else { 0 }, 1]) {
             0 => Op::Sub(s.below(4) as u8),
             1 => Op::Unsub(s.below(4) as u8),
             2 => Op::Join {
                 xpub: s.bool(),
                 stall: if s.chance(1, 2) { Some(s.pick(&[0usize, 0, 1, 3, 5])) } else { None },
+                ident: s.bool(),
             },
             3 => Op::Release(s.below(4)),
             4 => Op::Step(s.next()),
             5 => Op::Settle,
-            _ => Op::Break(s.below(6)),
+            6 => Op::Break(s.below(6)),
+            _ => Op::Rejoin(s.below(6)),
         };
         ops.push(op);
     }
@@ -369,7 +407,7 @@ pub fn run(ctx: &Ctx) -> (Report, PropertyMeta) {
                         let mut ops: Vec<Op> = vec![];
                         for (i, op) in h.iter().enumerate() {
                             if i == pos {
-                                ops.push(Op::Join { xpub: i % 2 == 0, stall });
+                                ops.push(Op::Join { xpub: i % 2 == 0, stall, ident: false });
                                 ops.push(Op::Settle);
                             }
                             if stall.is_some() && i == pos + release_after {
@@ -380,7 +418,7 @@ pub fn run(ctx: &Ctx) -> (Report, PropertyMeta) {
                             ops.push(Op::Settle);
                         }
                         if pos == h.len() {
-                            ops.push(Op::Join { xpub: false, stall });
+                            ops.push(Op::Join { xpub: false, stall, ident: false });
                             ops.push(Op::Settle);
                         }
                         cases.push(SubCase { initial_peers: initial, ops });
@@ -401,9 +439,30 @@ pub fn run(ctx: &Ctx) -> (Report, PropertyMeta) {
                     ops.push(op.clone());
                     ops.push(Op::Settle);
                 }
-                ops.push(Op::Join { xpub: false, stall: None });
+                ops.push(Op::Join { xpub: false, stall: None, ident: false });
                 ops.push(Op::Settle);
                 cases.push(SubCase { initial_peers: 3, ops });
+            }
+        }
+    }
+    // a peer with a fixed identity comes back at every position
+    for h in &hist {
+        for at in 0..=h.len() {
+            for initial in [1usize, 3] {
+                let mut ops = vec![Op::Settle];
+                for (i, op) in h.iter().enumerate() {
+                    if i == at {
+                        ops.push(Op::Rejoin(0));
+                        ops.push(Op::Settle);
+                    }
+                    ops.push(op.clone());
+                    ops.push(Op::Settle);
+                }
+                if at == h.len() {
+                    ops.push(Op::Rejoin(0));
+                    ops.push(Op::Settle);
+                }
+                cases.push(SubCase { initial_peers: initial, ops });
             }
         }
     }
@@ -423,11 +482,12 @@ pub fn run(ctx: &Ctx) -> (Report, PropertyMeta) {
     health(&mut report, "join-overlaps-a-call", total, 50);
     health(&mut report, "repeated-topic", total, 100);
     health_abs(&mut report, "one-broken-peer", 300);
+    health_abs(&mut report, "peer-comes-back-under-its-identity", 300);
 
     let _ = refcodec::hex;
     let meta = PropertyMeta {
         level: "exploration",
-        rule: "proptest histories on a real SUB socket: subscribe/unsubscribe calls over 4 topics (repeats and never-subscribed topics included) interleaved with raw PUB/XPUB peers joining through the real handshake as separate actors, a joiner's connection optionally stalled right after the handshake so that its join is suspended between the socket reading its subscription set and registering the peer while calls run, optionally one peer whose writes fail; plus a targeted enumeration of join positions. Oracle at quiescence: each live peer's wire is folded into per-topic counts the way a publisher does (+1/-1, floored); (i) all live peers agree on whether each topic is subscribed; (ii) where set and counting semantics coincide (topic never subscribed twice without an unsubscribe in between) the agreed value equals the API history's and no peer holds more than one subscription for it; (iv) with one broken peer every other peer is still updated and no call panics or hangs. Non-trivial = a join after a subscribe, or overlapping a call, or a repeated topic; distinct by case".into(),
+        rule: "proptest histories on a real SUB socket: subscribe/unsubscribe calls over 4 topics (repeats and never-subscribed topics included) interleaved with raw PUB/XPUB peers joining through the real handshake as separate actors, a joiner's connection optionally stalled right after the handshake so that its join is suspended between the socket reading its subscription set and registering the peer while calls run, optionally one peer whose writes fail, peers coming back under their announced identity; plus a targeted enumeration of join and come-back positions. Oracle at quiescence: each live peer's wire is folded into per-topic counts the way a publisher does (+1/-1, floored); (i) all live peers agree on whether each topic is subscribed; (ii) the agreed value equals the socket's subscription SET after the API history (a repeated subscribe changes nothing) and no peer holds more than one subscription for a topic; (iii) a peer that announced a fixed identity and comes back under it while the socket has not noticed that its old connection is dead (Rejoin) is, from then on, the new connection and is held to (i)-(ii) like any other; (iv) with one broken peer every other peer is still updated and no call panics or hangs. Non-trivial = a join after a subscribe, or overlapping a call, or a repeated topic; distinct by case".into(),
         assumptions: vec![
             "joins by connect() cannot overlap a call (&mut self); only accept-path joins are generated as concurrent actors".into(),
             "interleaving at await granularity (DESIGN §2.3)".into(),
